@@ -188,25 +188,25 @@ def run(ctx: Ctx) -> None:
                 v1 = dotted(inner.generators[0].target)
                 v2 = dotted(out_assign.value.generators[0].target)
                 cmpv = idx.find_func("compare_var", "guppylang_internals.compiler.cfg_compiler")
-                key_uses = "droppable" in ast.unparse(cmpv.node) and "not p1.ty.droppable" in ast.unparse(cmpv.node)
+                key_uses = "p1.ty.linear" in ast.unparse(cmpv.node) and "p2.ty.linear" in ast.unparse(cmpv.node)
                 bad = []
                 und = None
                 for c, d in itertools.product((False, True), repeat=2):
-                    tok = Tok("v", ty=Tok("ty", copyable=c, droppable=d, __classes__=[tb]))
+                    tok = Tok("v", ty=Tok("ty", copyable=c, droppable=d, linear=not c and not d, __classes__=[tb]))
                     try:
                         a = all(ev.truth(ev.ev(t, {v1: tok})) for t in in_sum)
                         b = all(ev.truth(ev.ev(t, {v2: tok})) for t in out_assign.value.generators[0].ifs)
                     except (Unsupported, Raised) as e:
                         und = str(e)
                         break
-                    if a == b or a != d:
+                    if a == b or a != (c or d):
                         bad.append({"copyable": c, "droppable": d, "goes_into_branch_sum": a, "goes_into_regular_outputs": b})
                 if und:
                     ctx.undecided("R-C01.3", key, cb.where, und)
                 else:
                     ctx.check(not bad and key_uses, "R-C01.3", key, f"{cb.module.rel}:{sum_call.lineno}",
                               {"branch_sum_filter": [ast.unparse(t) for t in in_sum], "regular_output_filter": [ast.unparse(t) for t in out_assign.value.generators[0].ifs],
-                               "sort_key_uses_droppable": key_uses, "counterexamples": bad},
+                               "sort_key_uses_linear": key_uses, "counterexamples": bad},
                               "when the successors of a branching block need different variables, a variable of some copy/drop class is put into "
                               "neither (or both) of the branch sum and the regular outputs: the successor block receives the wrong number of "
                               "values (invalid HUGR) or a value is lost")
@@ -216,8 +216,26 @@ def run(ctx: Ctx) -> None:
         ctx.check(ok, "R-C01.3", f"{cb.qualname}#same-order-for-outputs-and-successor-inputs", cb.where, {},
                   "a block outputs its variables in another order than its successor expects them")
     cvs = idx.find_func("choose_vars_for_tuple_sum", "guppylang_internals.compiler.cfg_compiler")
-    ok = any(isinstance(n, ast.Assert) and "droppable" in ast.unparse(n.test) for n in walk_no_nested(cvs.node))
-    ctx.check(ok, "R-C01.3", f"{cvs.qualname}#only-droppable-in-branch-sum", cvs.where, {}, "non-droppable values may be put into a branch sum where the untaken variants discard them")
+    # the guard of the branch sum: a LINEAR place (neither copyable nor droppable) is live in every successor or in none, so it never
+    # belongs into one variant of the sum -- the assertion is evaluated on one-variable rows of each copy/drop class
+    asserts = [n for n in walk_no_nested(cvs.node) if isinstance(n, ast.Assert)]
+    pname = cvs.node.args.args[1].arg if len(cvs.node.args.args) > 1 else "output_vars"
+    verdicts = {}
+    und = None
+    for c, d in itertools.product((False, True), repeat=2):
+        tok = Tok("v", ty=Tok("ty", copyable=c, droppable=d, linear=not c and not d))
+        try:
+            verdicts[(c, d)] = all(PyEval(idx, cvs.module.name).truth(PyEval(idx, cvs.module.name).ev(a.test, {pname: [[tok]]})) for a in asserts)
+        except (Unsupported, Raised) as e:
+            und = str(e)
+            break
+    key = f"{cvs.qualname}#no-linear-place-in-branch-sum"
+    if und or not asserts:
+        ctx.undecided("R-C01.3", key, cvs.where, und or "no assertion on the rows of the branch sum")
+    else:
+        badv = [{"copyable": c, "droppable": d, "admitted": v} for (c, d), v in verdicts.items() if v != (c or d)]
+        ctx.check(not badv, "R-C01.3", key, cvs.where, {"counterexamples": badv},
+                  "the guard of the branch sum admits a linear place (or refuses one that may be live in only some successors)")
 
     # ------------------------------------------------------------ R-C01.4 return variables
     from . import c01_retvars
